@@ -2253,7 +2253,9 @@ def sink_optional_uses_into_arms(fnode, counter):
                 here = {last.targets[0].id} if isinstance(last, ast.Assign) and len(last.targets) == 1 and isinstance(last.targets[0], ast.Name) else set()
                 cands = here if cands is None else cands & here
             for v in sorted(cands or ()):
-                if not any(isinstance(a[-1].value, ast.Constant) and a[-1].value.value is None for a in arms):
+                some_none = any(isinstance(a[-1].value, ast.Constant) and a[-1].value.value is None for a in arms)
+                all_flags = all(isinstance(a[-1].value, ast.Constant) and isinstance(a[-1].value.value, bool) for a in arms)
+                if not (some_none or all_flags):
                     continue
                 n_binds = sum(1 for x in ast.walk(fnode) if isinstance(x, ast.Name) and x.id == v and isinstance(x.ctx, (ast.Store, ast.Del)))
                 if n_binds != len(arms):
@@ -2266,8 +2268,9 @@ def sink_optional_uses_into_arms(fnode, counter):
                 if any(isinstance(x, ast.Name) and x.id == v and id(x) not in inside for x in ast.walk(fnode)):
                     continue
                 region = tail[:last_use + 1]
-                if any(isinstance(x, (ast.Return, ast.Break, ast.Continue, ast.Yield, ast.YieldFrom)) for t in region for x in ast.walk(t)):
+                if any(isinstance(x, (ast.Return, ast.Yield, ast.YieldFrom)) for t in region for x in ast.walk(t)):
                     continue
+                # break / continue keep their meaning: the region stays inside the same loop, only nested one `if` deeper
                 if sum(len(list(ast.walk(t))) for t in region) > 400:
                     continue
                 for a in arms:
